@@ -6,9 +6,10 @@
 // Sampled drops: either outcome is accepted, |100*dropped - rate*matched| <= 100 is checked at every prefix.
 //
 // Engines
-//   sanity    the reference (and the harness) against the literal cases of the repository's unit tests
-//   programs  N programs x 60 records, in child processes (an in-place write into read-only memory would be fatal)
-//   sampling  every percentage 1..100 on a 1000-record matched stream, every prefix
+//
+//	sanity    the reference (and the harness) against the literal cases of the repository's unit tests
+//	programs  N programs x 60 records, in child processes (an in-place write into read-only memory would be fatal)
+//	sampling  every percentage 1..100 on a 1000-record matched stream, every prefix
 package main
 
 import (
@@ -17,7 +18,6 @@ import (
 	"fmt"
 	"os"
 	"runtime"
-	"sort"
 	"strconv"
 	"strings"
 	"time"
@@ -239,6 +239,7 @@ func samplingEngine(c *vkit.Ctx, op Opaque) {
 				}
 				c.Violation(fmt.Sprintf("%s:drop:stream", d.Kind), fmt.Sprintf("drop percentage=%d: %s", pct, d.What),
 					map[string]any{"program_yaml": p.YAML(), "matched": st.Matched, "dropped": st.Dropped, "stream": "records with level=warn match; 3 of 4 records match", "record_index": len(recs) - 1})
+				c.Event("sampling_streams_cut", 1)
 				break
 			}
 			if matched == stream && rec.Fields[1] == "warn" {
@@ -484,6 +485,11 @@ func main() {
 				continue
 			}
 			c.Event("child_crashes", 1)
+			if c.EventCount("child_crashes") > maxCrashFollowUps {
+				// a pervasive fatal defect: it has been confirmed and reported; do not spend the budget dying again
+				c.Event("programs_abandoned_after_crash_cap", hi-idx)
+				continue
+			}
 			if res.Spec.Args["single"] != "1" {
 				confirm := c.RunChild(vkit.ChildSpec{Mode: "batch", Tag: fmt.Sprintf("confirm%d", idx), Timeout: 5 * time.Minute,
 					Args: map[string]string{"lo": strconv.Itoa(idx), "hi": strconv.Itoa(idx + 1), "single": "1"}})
@@ -505,36 +511,42 @@ func main() {
 	}
 
 	// --- observation floors: a run that did not exercise the language must fail as broken
-	c.Require("programs", int64(nProg*9/10))
-	c.Require("records", int64(nProg*recordsPerProgram/2))
-	c.Require("programs_depth3", int64(nProg/20))
-	for _, sw := range stepWeights {
-		c.Require("step:"+sw.t, 20)
-	}
-	for _, op := range []string{"str", "str-eq", "str-not", "str-start", "str-end", "str-contain", "glob", "regex", "len-gt", "len-lt", "str-any"} {
-		c.Require("op:"+op, 20)
-	}
 	c.Require("match_evaluations", 20000)
 	for _, op := range []string{"str", "str-eq", "str-not", "str-start", "str-end", "str-contain", "glob", "regex", "len-gt", "len-lt", "str-any"} {
 		c.Require("matchop:"+op, 500)
 	}
-	if c.NumViolations() == 0 {
-		// these floors only make sense when streams and programs ran to the end
+	if c.EventCount("sampling_streams_cut") == 0 {
 		c.Require("sampled_prefixes", 99000)
-		for _, b := range []string{"truncate:cut-clean", "truncate:cut-midrune1", "truncate:cut-midrune2", "truncate:cut-after-rune",
-			"extractHead:edge", "extractTail:edge", "extractHead:beyond", "extractTail:beyond", "extractHead:in", "extractTail:in",
-			"drop:sampled-drop", "drop:sampled-keep"} {
-			c.Require("boundary:"+b, 5)
+	}
+	if c.EventCount("child_crashes") == 0 {
+		// (a child that dies loses its counters; the crash itself is the violation then)
+		c.Require("programs", int64(nProg*9/10))
+		c.Require("records", int64(nProg*recordsPerProgram/2))
+		c.Require("programs_depth3", int64(nProg/20))
+		for _, sw := range stepWeights {
+			c.Require("step:"+sw.t, 20)
+		}
+		for _, op := range []string{"str", "str-eq", "str-not", "str-start", "str-end", "str-contain", "glob", "regex", "len-gt", "len-lt", "str-any"} {
+			c.Require("op:"+op, 20)
+		}
+		if c.EventCount("divergences") == 0 {
+			// boundary floors only make sense when no program was cut short by a divergence
+			for _, b := range []string{"truncate:cut-clean", "truncate:cut-midrune1", "truncate:cut-midrune2", "truncate:cut-after-rune",
+				"extractHead:edge", "extractTail:edge", "extractHead:beyond", "extractTail:beyond", "extractHead:in", "extractTail:in",
+				"extractHead:trimmed", "extractTail:trimmed", "drop:sampled-drop", "drop:sampled-keep"} {
+				c.Require("boundary:"+b, 5)
+			}
 		}
 	}
 	c.Finish()
-	_ = os.Stdout
-	_ = sort.Strings
 }
 
 // mergeCapped merges a child's results; of the generic "kind:step types" fingerprints (no root cause could be told) at
 // most maxGeneric distinct ones are kept per run: a gross defect would otherwise be reported once per program shape.
 const maxGeneric = 10
+
+// maxCrashFollowUps: how many child deaths are followed up (confirmation in a fresh child + rest of the batch).
+const maxCrashFollowUps = 4
 
 var genericSeen = map[string]bool{}
 
@@ -577,7 +589,21 @@ func reportCrash(c *vkit.Ctx, idx int, res vkit.ChildResult) {
 	}
 	w := witnessOf(p, recs, &Divergence{Kind: "crash", What: res.CrashSummary()}, k)
 	w["stderr_head"] = firstLines(res.Stderr, 40)
-	c.Violation("crash:"+res.CrashSite(), fmt.Sprintf("transform program kills the process (%s) on record %d of program %d", res.CrashSummary(), k, idx), w)
+	c.Violation("crash:"+crashSite(res), fmt.Sprintf("transform program kills the process (%s) on record %d of program %d", res.CrashSummary(), k, idx), w)
+}
+
+// crashSite: the innermost slog-agent function in the dying goroutine's stack, without arguments and line numbers.
+func crashSite(res vkit.ChildResult) string {
+	for _, l := range strings.Split(res.Stderr, "\n") {
+		l = strings.TrimSpace(l)
+		if strings.HasPrefix(l, "github.com/relex/slog-agent/") {
+			if j := strings.LastIndex(l, "("); j > 0 {
+				l = l[:j]
+			}
+			return strings.TrimPrefix(l, "github.com/relex/slog-agent/")
+		}
+	}
+	return res.CrashSite()
 }
 
 func firstLines(s string, n int) string {
